@@ -34,6 +34,8 @@ static void prop_cycle(Tape &t, Ctx &c) {
     double alpha = t.b() ? static_cast<double>(t.u(-3, 3)) : t.slogu(1e-3, 1e3);
     double beta = t.b() ? static_cast<double>(t.u(-3, 3)) : t.slogu(1e-3, 1e3);
     int kexp = static_cast<int>(t.u(0, 40)) - 20; if (kexp == 0) kexp = 1;
+    // npre / npost = 0 (V(0,nu), W(0,nu), V(nu,0) cycles; npre + npost >= 1).  Read last so that older saved tapes keep their meaning.
+    { int z = static_cast<int>(t.u(0, 7)); if (z >= 4 && z <= 6) cfg.npre = 0; else if (z == 7) cfg.npost = 0; }
 
     c.desc << "cycle " << g.family << " n=" << n << " nnz=" << A.nnz() << " contrast=" << mi.contrast << " aniso=" << mi.aniso << " shifts=" << mi.shifts
            << " | " << cfg.str() << " | alpha=" << alpha << " beta=" << beta << " k=" << kexp << " A=" << dump_small(A, 8);
@@ -49,7 +51,7 @@ static void prop_cycle(Tape &t, Ctx &c) {
     c.label("fam:" + g.family);
     c.label("levels=" + std::to_string(std::min<size_t>(li.levels, 6)));
     c.label(cfg.ncycle == 1 ? "V-cycle" : "W-cycle");
-    c.label(cfg.npre == cfg.npost ? "npre==npost" : "npre!=npost");
+    c.label(cfg.npre == cfg.npost ? "npre==npost" : "npre!=npost"); if (cfg.npre == 0) c.label("npre=0,ncycle=" + std::to_string(cfg.ncycle) + ",pre_cycles=" + std::to_string(cfg.pre_cycles)); if (cfg.npost == 0) c.label("npost=0");
     c.label(li.direct ? "coarse:direct" : "coarse:relaxed");
     c.label(bucket(static_cast<double>(n), {13, 41, 101}, "n"));
     c.nontrivial = li.levels >= 2;
